@@ -53,6 +53,8 @@ func New(session *packet.Session) (h *DNSHandler, err error) {
 }
 
 func (h *DNSHandler) Close() error {
+	h.mutex.Lock()
+	defer h.mutex.Unlock()
 	h.DNSTable = nil
 	h.mdnsCache = nil
 	return nil
